@@ -45,6 +45,20 @@ def _replay_ct(model, rec):
             return {"confirmed": True, "witness_class": "content-type-lookup", "detail": "lookup of %s raised %r" % (pn, e)}
         if got != want:
             return {"confirmed": True, "witness_class": "content-type-lookup", "detail": "lookup of %s gave %r, declared %r" % (pn, got, want)}
+    # names outside ASCII, as other producers write them: an Override is found under the spelling used in the file and under any other
+    # case spelling of it (letters for which the several notions of "caseless" differ included: sharp s, final sigma, dotted I)
+    names = ["/ppt/slides/Ma\u00dfe1.xml", "/ppt/slideLayouts/\u0394\u03b9\u03ac\u03c4\u03b1\u03be\u03b7\u03c21.xml", "/ppt/media/\u0130stanbul.png", "/ppt/\u00c9t\u00e9.xml"]
+    xml2 = ('<Types xmlns="http://schemas.openxmlformats.org/package/2006/content-types"><Default Extension="xml" ContentType="application/xml"/>'
+            '<Default Extension="png" ContentType="image/png"/>%s</Types>' % "".join('<Override PartName="%s" ContentType="application/x-%d"/>' % (n_, i_) for i_, n_ in enumerate(names))).encode("utf-8")
+    m2 = _ContentTypeMap.from_xml(xml2)
+    for i_, n_ in enumerate(names):
+        for spelled in (n_, n_.upper() if n_.upper().lower() == n_.lower() else n_, n_.lower() if n_.lower().upper() == n_.upper() else n_, n_.swapcase() if n_.swapcase().lower() == n_.lower() else n_):
+            try:
+                got = m2[PackURI(spelled)]
+            except Exception as e:
+                return {"confirmed": True, "witness_class": "content-type-lookup", "detail": "Override for %r: lookup of %r raised %r" % (n_, spelled, e)}
+            if got != "application/x-%d" % i_:
+                return {"confirmed": True, "witness_class": "content-type-lookup", "detail": "Override for %r: lookup of %r gave %r, declared application/x-%d" % (n_, spelled, got, i_)}
     try:
         m[PackURI("/ppt/x.unknown")]
         return {"confirmed": True, "witness_class": "content-type-lookup", "detail": "undeclared extension did not raise KeyError"}
